@@ -145,20 +145,26 @@ func runPartition(chunks [][]byte, total int, eofWithLast bool) Sx {
 	for i, c := range chunks {
 		cs[i] = append([]byte(nil), c...)
 	}
-	frames := List{}
+	// The frames are held as the parser returned them and looked at only when the stream has ended, the way the read loop
+	// hands them to a channel that the session empties later: a frame must stay what it was while the parser reads on.
+	var held []*bytes.Buffer
 	r := Guard(func() Sx {
 		p := quickfix.VerifNewParser(&chunkReader{chunks: cs, eofWithLast: eofWithLast})
 		for i := 0; i <= total+1; i++ {
-			m, err := p.ReadMessage()
+			m, err := p.ReadMessageBuffer()
 			if err != nil {
 				return Sym(errClass(err))
 			}
-			frames = append(frames, Bytes(m))
+			held = append(held, m)
 		}
 		return Sym("fuel")
 	})
 	if AtomSym(r) == "fuel" {
 		return L(List{}, r) // still running: its frame list must not be read
+	}
+	frames := List{}
+	for _, m := range held {
+		frames = append(frames, Bytes(m.Bytes()))
 	}
 	return L(frames, r)
 }
